@@ -1356,13 +1356,17 @@ class Vector():
 		if isinstance(other, Vector):
 			if not self._dtype.nullable and not other.schema().nullable and self._dtype.kind != other.schema().kind:
 				raise SerifTypeError("Cannot concatenate two typesafe Vectors of different types")
-			return Vector(self._underlying + other._underlying,
-				dtype=self._dtype)
-		if isinstance(other, Iterable) and not isinstance(other, (str, bytes, bytearray)):
-			return Vector(self._underlying + tuple(other),
-				dtype=self._dtype)
-		return Vector(self._underlying + (other,),
-				dtype=self._dtype)
+			appended = other._underlying
+		elif isinstance(other, Iterable) and not isinstance(other, (str, bytes, bytearray)):
+			appended = tuple(other)
+		else:
+			appended = (other,)
+		# The appended values may widen the dtype (None, a wider or a different kind):
+		# promote instead of keeping the left operand's dtype unchanged
+		dtype = self._dtype
+		for x in appended:
+			dtype = dtype.promote_with(x)
+		return Vector(self._underlying + appended, dtype=dtype)
 
 
 	def __rshift__(self, other):
